@@ -61,8 +61,13 @@ class ShapeFreeNorm(FlowNormalizer):
                 return self.norm(n.value)
             rest = [e for e in items if not _is_none(e)]
             if rest and all(_is_full(e) or _is_ellipsis(e) for e in rest[:-1]) and not isinstance(rest[-1], ast.Slice):
-                base = _bare(self.norm(n.value).key())
+                bp = self.norm(n.value)
                 comp = _bare(self.norm(rest[-1]).key())
+                if bp.is_monomial() and not bp.is_const():
+                    (mono, coef), = bp.terms.items()
+                    if len(mono) == 1 and mono[0][1] == 1:  # selection commutes with scaling: (c·t)⟨i⟩ = c·t⟨i⟩
+                        return Poly.const(coef) * Poly.atom(f"{mono[0][0]}⟨{comp}⟩")
+                base = _bare(bp.key())
                 return Poly.atom(f"{base}⟨{comp}⟩")
         if isinstance(n, ast.Call):
             s = last_attr(n)
@@ -501,8 +506,318 @@ def run(ctx) -> None:  # noqa: F811
 _inner_run_c39c = run
 
 
-def _tilt_product_rule(ctx) -> None:
+# ---- exact treatment of omitted phase factors (seeded change C39-r6seed2) ---------------------------------------------
+# A path of the kernel function on which the phase factor of one frequency axis does not multiply the propagator is a
+# lateral shift by dz·tan(t) only if tan(t) = 0 for EVERY member of the tilt batch along that axis.  The helpers below
+# read (a) which entries of the tilt array a phase factor uses (root parameter + chain of subscripts, evaluated over
+# axis positions counted from the end of the array), (b) what the tests on the path say about the entries of the same
+# array, as a propositional formula over the atoms "every entry of <selection> is zero", and decide by enumeration of
+# the models of the path condition whether "every entry of component c is zero" follows.
+_DEF = "⟦def⟧"
+_FREQ = "⟦freq⟧"
+_SHAPE_ATTRS = {"shape", "ndim", "dtype", "size"}
+_VALUE_KEEPING = {"array", "asarray", "ascontiguousarray", "asanyarray", "copy", "astype", "abs", "absolute", "fabs",
+                  "float", "float32", "float64", "squeeze"}
+TILT_PARAM = "tilt"  # part of the signature: FresnelPropagator._calculate_array passes it by keyword
+
+
+class _Binding:
+    """`name = value` executed on this path: the expression, the environment it was evaluated in and the term the
+    name was bound to (the binding is current as long as the name still holds that very term)."""
+    __slots__ = ("value", "env", "poly")
+
+    def __init__(self, value, env, poly):
+        self.value, self.env, self.poly = value, env, poly
+
+
+def _binding(env: dict, name: str):
+    b = env.get(_DEF + name)
+    if b is not None and env.get(name) is b.poly:
+        return b
+    return None
+
+
+def _num_const(e):
+    if isinstance(e, ast.Constant) and isinstance(e.value, (int, float)) and not isinstance(e.value, bool):
+        return e.value
+    if isinstance(e, ast.UnaryOp) and isinstance(e.op, (ast.USub, ast.UAdd)):
+        v = _num_const(e.operand)
+        return None if v is None else (-v if isinstance(e.op, ast.USub) else v)
+    return None
+
+
+def _view_of(e, env: dict):
+    """(root parameter, chain of subscripts) when `e` is the tilt array as passed in, indexed / reshaped / copied and
+    possibly scaled by a non-zero constant or taken by modulus (zero entries stay zero, the others non-zero)."""
+    if isinstance(e, ast.Name):
+        b = _binding(env, e.id)
+        if b is not None:
+            return _view_of(b.value, b.env)
+        if e.id == TILT_PARAM and e.id not in env:
+            return e.id, ()
+        return None
+    if isinstance(e, ast.Subscript):
+        base = _view_of(e.value, env)
+        if base is None:
+            return None
+        return base[0], base[1] + (tuple(_slice_items(e.slice)),)
+    if isinstance(e, ast.Call):
+        s = last_attr(e) or call_name(e)
+        if s == "cast" and len(e.args) == 2:
+            return _view_of(e.args[1], env)
+        if s in _VALUE_KEEPING:
+            if any(k.arg in ("axis", "out", "where") for k in e.keywords):
+                return None
+            v = _view_of(e.args[0], env) if e.args else None
+            if v is None and isinstance(e.func, ast.Attribute):
+                v = _view_of(e.func.value, env)
+            if v is not None and s == "squeeze":
+                return None  # drops axes: positions are not tracked through it
+            return v
+        return None
+    if isinstance(e, ast.UnaryOp) and isinstance(e.op, (ast.USub, ast.UAdd)):
+        return _view_of(e.operand, env)
+    if isinstance(e, ast.BinOp) and isinstance(e.op, ast.Mult):
+        for a, b in ((e.left, e.right), (e.right, e.left)):
+            if _num_const(b) not in (None, 0):
+                return _view_of(a, env)
+    if isinstance(e, ast.BinOp) and isinstance(e.op, ast.Div) and _num_const(e.right) not in (None, 0):
+        return _view_of(e.left, env)
+    return None
+
+
+def _collect(e, env: dict, want_tan: bool, out: list, seen: set) -> None:
+    """views of the tilt array (want_tan False) / tan(...) calls with their environment (want_tan True) inside `e`,
+    looking through the local names bound on this path."""
+    if want_tan:
+        if isinstance(e, ast.Call) and last_attr(e) == "tan" and len(e.args) == 1:
+            out.append((e, env))
+            return
+    else:
+        v = _view_of(e, env)
+        if v is not None:
+            out.append(v)
+            return
+    if isinstance(e, ast.Name):
+        b = _binding(env, e.id)
+        if b is not None and id(b) not in seen:
+            seen.add(id(b))
+            _collect(b.value, b.env, want_tan, out, seen)
+        return
+    if isinstance(e, ast.Attribute) and e.attr in _SHAPE_ATTRS:
+        return
+    if isinstance(e, ast.Call) and call_name(e) == "len":
+        return
+    for c in ast.iter_child_nodes(e):
+        _collect(c, env, want_tan, out, seen)
+
+
+def _mentions_tilt(e, env: dict) -> bool:
+    out: list = []
+    _collect(e, env, False, out, set())
+    if out:
+        return True
+    for n in ast.walk(e):
+        if isinstance(n, ast.Name) and n.id == TILT_PARAM and _binding(env, n.id) is None and n.id in env:
+            return True  # the parameter name rebound by something that was not followed
+    return False
+
+
+def _int_const(e):
+    v = _num_const(e)
+    return v if isinstance(v, int) else None
+
+
+def _select(chain, ndim):
+    """Compose the subscripts of `chain` on an array with `ndim` axes (None: unknown).  Axes are named by their position
+    counted from the end (negative) when ndim is known; with ndim unknown positions read from the front are >= 0, the
+    unknown run of axes in between is ('rest', first, last).  -> (fixed {axis: index expr}, partially sliced axes,
+    remaining axes in order, 'new' for inserted ones)."""
+    free: list = [("rest", 0, -1)] if ndim is None else [k - ndim for k in range(ndim)]
+    fixed: dict = {}
+    partial: set = set()
+
+    def take(front: bool):
+        if not free:
+            raise AnalysisError("a selection of the tilt array has more indices than the array has axes")
+        i = 0 if front else -1
+        a = free[i]
+        if isinstance(a, tuple):
+            _, s_, e_ = a
+            free[i] = ("rest", s_ + 1, e_) if front else ("rest", s_, e_ - 1)
+            return s_ if front else e_
+        free.pop(i)
+        return a
+
+    for items in chain:
+        ell = [i for i, e in enumerate(items) if _is_ellipsis(e)]
+        if len(ell) > 1:
+            raise AnalysisError("two ellipses in one selection of the tilt array")
+        left = items[:ell[0]] if ell else items
+        right = items[ell[0] + 1:] if ell else ()
+        out_l: list = []
+        out_r: list = []
+        for seq, front, out in ((left, True, out_l), (tuple(reversed(right)), False, out_r)):
+            for e in seq:
+                if _is_none(e):
+                    out.append("new")
+                    continue
+                a = take(front)
+                if _is_full(e):
+                    out.append(a)
+                elif isinstance(e, ast.Slice):
+                    out.append(a)
+                    if a != "new":
+                        partial.add(a)
+                elif a != "new":
+                    fixed[a] = e
+        free[:] = out_l + free + list(reversed(out_r))
+    return fixed, partial, free
+
+
+def _infer_ndim(chain):
+    """number of axes of the tilt array if the selection a phase factor makes names every axis of it (what is left
+    over has to broadcast against the (1, x, y) frequency arrays together with the inserted axes)."""
+    _, _, free = _select(chain, None)
+    rest = [a for a in free if isinstance(a, tuple)]
+    if len(rest) != 1:
+        return None
+    n = rest[0][1] - rest[0][2] - 1
+    return n if n >= 1 else None
+
+
+def _is_zero_scalar(e) -> bool:
+    return _num_const(e) == 0
+
+
+def _elem(e, env: dict):
+    """element-wise truth of `e`: ('nz', view) true at the non-zero entries / ('z', view) true at the zero entries."""
+    v = _view_of(e, env)
+    if v is not None:
+        return "nz", v
+    if isinstance(e, ast.Name):
+        b = _binding(env, e.id)
+        return _elem(b.value, b.env) if b is not None else None
+    if isinstance(e, ast.Compare) and len(e.ops) == 1 and isinstance(e.ops[0], (ast.Eq, ast.NotEq)):
+        for a, b in ((e.left, e.comparators[0]), (e.comparators[0], e.left)):
+            v = _view_of(a, env)
+            if v is not None and _is_zero_scalar(b):
+                return ("z" if isinstance(e.ops[0], ast.Eq) else "nz"), v
+        return None
+    flip = None
+    if isinstance(e, ast.UnaryOp) and isinstance(e.op, ast.Invert):
+        flip = _elem(e.operand, env)
+    if isinstance(e, ast.Call) and last_attr(e) == "logical_not" and len(e.args) == 1:
+        flip = _elem(e.args[0], env)
+    if flip is not None:
+        return ("z" if flip[0] == "nz" else "nz"), flip[1]
+    return None
+
+
+def _zero_fact(e, env: dict):
+    """(kind, view, polarity, remark):  kind 'allz': `e` <=> (every entry of view is zero) == polarity;
+    kind 'scalar': the same for a comparison of one entry (valid when the selection leaves no axis);
+    kind 'weak': `e` reads the entries of view but is not equivalent to that statement (remark says what it tests)."""
+    if isinstance(e, ast.Call):
+        s = last_attr(e) or call_name(e)
+        if s in ("any", "all", "count_nonzero") and not e.keywords and len(e.args) <= 1:
+            operand = e.args[0] if e.args else (e.func.value if isinstance(e.func, ast.Attribute) else None)
+            el = _elem(operand, env) if operand is not None else None
+            if el is None:
+                return None
+            k, v = el
+            if s == "count_nonzero":
+                return ("allz", v, False, "") if k == "nz" else None
+            if s == "any":
+                return ("allz", v, False, "") if k == "nz" else \
+                    ("weak", v, True, "is already true when ONE member of the batch has a zero entry (`any` where "
+                                      "`all` is needed)")
+            return ("allz", v, True, "") if k == "z" else \
+                ("weak", v, True, "is true when every entry is NON-zero")
+        return None
+    if isinstance(e, ast.Compare) and len(e.ops) == 1:
+        op, l, r = e.ops[0], e.left, e.comparators[0]
+        for a, b, flipped in ((l, r, False), (r, l, True)):
+            if not _is_zero_scalar(b):
+                continue
+            if isinstance(a, ast.Call) and (last_attr(a) or call_name(a)) == "count_nonzero":
+                f = _zero_fact(a, env)  # count != 0
+                if f is None:
+                    return None
+                if isinstance(op, ast.Eq):
+                    return "allz", f[1], True, ""
+                if isinstance(op, ast.NotEq) or (isinstance(op, ast.Gt) and not flipped) or \
+                        (isinstance(op, ast.Lt) and flipped):
+                    return "allz", f[1], False, ""
+                return None
+            v = _view_of(a, env)
+            if v is not None and isinstance(op, (ast.Eq, ast.NotEq)):
+                return "scalar", v, isinstance(op, ast.Eq), ""
+        return None
+    v = _view_of(e, env)
+    if v is not None:
+        return "scalar", v, False, ""  # truth value of one entry: non-zero
+    return None
+
+
+def _pin_ndim(e, env: dict, truth: bool):
+    """number of axes of the tilt array as passed in, when the test `e` (with outcome `truth`) fixes it."""
+    if isinstance(e, ast.UnaryOp) and isinstance(e.op, ast.Not):
+        return _pin_ndim(e.operand, env, not truth)
+    if isinstance(e, ast.BoolOp) and isinstance(e.op, ast.And if truth else ast.Or):
+        for v in e.values:
+            n = _pin_ndim(v, env, truth)
+            if n is not None:
+                return n
+        return None
+    if isinstance(e, ast.Name):
+        b = _binding(env, e.id)
+        return _pin_ndim(b.value, b.env, truth) if b is not None else None
+    if isinstance(e, ast.Compare) and len(e.ops) == 1 and isinstance(e.ops[0], ast.Eq if truth else ast.NotEq):
+        for a, b in ((e.left, e.comparators[0]), (e.comparators[0], e.left)):
+            n = None
+            if isinstance(a, ast.Attribute) and a.attr == "shape" and isinstance(b, ast.Tuple) and \
+                    all(_int_const(x) is not None for x in b.elts):
+                n, arr = len(b.elts), a.value
+            elif isinstance(a, ast.Attribute) and a.attr == "ndim" and _int_const(b) is not None:
+                n, arr = _int_const(b), a.value
+            elif isinstance(a, ast.Call) and call_name(a) == "len" and len(a.args) == 1 and \
+                    isinstance(a.args[0], ast.Attribute) and a.args[0].attr == "shape" and _int_const(b) is not None:
+                n, arr = _int_const(b), a.args[0].value
+            if n is not None and _view_of(arr, env) == (TILT_PARAM, ()):
+                return n
+    return None
+
+
+def _eval_formula(f, m: dict) -> bool:
+    k = f[0]
+    if k == "const":
+        return f[1]
+    if k == "var":
+        return m[f[1]]
+    if k == "not":
+        return not _eval_formula(f[1], m)
+    if k == "and":
+        return all(_eval_formula(x, m) for x in f[1])
+    return any(_eval_formula(x, m) for x in f[1])
+
+
+def _formula_vars(f, out: list) -> None:
+    if f[0] == "var":
+        if f[1] not in out:
+            out.append(f[1])
+    elif f[0] == "not":
+        _formula_vars(f[1], out)
+    elif f[0] in ("and", "or"):
+        for x in f[1]:
+            _formula_vars(x, out)
+
+
+def _tilt_product_rule(ctx):
+    """-> an AnalysisError of the omitted-factor analysis that is to be raised after the older rules ran, or None."""
     import ast as _ast
+    import itertools
+    import re
 
     from ..model import last_attr as _last
     from ..rules.symx import EnvNorm, SymExec
@@ -511,12 +826,46 @@ def _tilt_product_rule(ctx) -> None:
     tf = ctx.repo.function(MS, TILT_FN)
     ctx.require("array" in tf.params, f"{tf.qualname}: parameter `array` (the untilted propagator) not found")
     factors: dict[str, str] = {}
+    ramp_views: dict[str, object] = {}  # ramp atom -> {frequency axis: [views]} | AnalysisError
+    freq_re = re.compile(re.escape(_FREQ) + r"\)?(?:#|\[)(\d)")
+
+    def ramp_axes(nz, arg, p) -> dict:
+        terms = [_Poly({m: v}) for m, v in p.terms.items()]
+        out: dict = {}
+        tans: list = []
+        if len(terms) > 1:
+            _collect(arg, nz.env, True, tans, set())
+        for t in terms:
+            axes = {int(m.group(1)) for a in t.atoms() for m in freq_re.finditer(a)}
+            if len(axes) != 1 or not axes <= {0, 1}:
+                raise AnalysisError(f"{tf.qualname}: a term of the phase `{norm_text(arg)[:60]}` does not carry the "
+                                    "spatial frequencies of exactly one axis")
+            vs: list = []
+            if len(terms) == 1:
+                _collect(arg, nz.env, False, vs, set())
+            else:
+                for tc, tenv in tans:
+                    if _bare(sx.normalizer(tenv).norm(tc).key()) in t.atoms():
+                        _collect(tc, tenv, False, vs, set())
+            if not vs:
+                raise AnalysisError(f"{tf.qualname}: the entries of the tilt array used by the phase "
+                                    f"`{norm_text(arg)[:60]}` were not found")
+            out.setdefault(axes.pop(), []).extend(vs)
+        return out
 
     def hook(nz, call):
         s = _last(call)
+        if s == "spatial_frequencies":
+            return _Poly.atom(_FREQ)
         if s == "complex_exponential" and len(call.args) == 1:
-            k = nz.norm(call.args[0]).key()
+            p = nz.norm(call.args[0])
+            k = p.key()
             name = factors.setdefault(k, f"⟦ramp{len(factors)}⟧")
+            if name not in ramp_views:
+                try:
+                    ramp_views[name] = ramp_axes(nz, call.args[0], p)
+                except AnalysisError as e:
+                    ramp_views[name] = e
             return _Poly.atom(name)
         if s == "cast" and len(call.args) == 2:
             return nz.norm(call.args[1])
@@ -536,13 +885,261 @@ def _tilt_product_rule(ctx) -> None:
             return super().norm(n)
 
     class _Exec(SymExec):
+        def __init__(self, *a, **k):
+            super().__init__(*a, **k)
+            self.test_envs: dict = {}
+
         def normalizer(self, env):
             return _ShapeFree(env, self.trig, self.call_hook)
+
+        def _block(self, body, env, conds, cont):
+            if body and isinstance(body[0], _ast.If):
+                self.test_envs[(id(body[0].test), tuple((id(t), b) for t, b in conds))] = env
+            super()._block(body, env, conds, cont)
+
+        def _simple(self, st, env):
+            pre = dict(env)
+            super()._simple(st, env)
+            if isinstance(st, _ast.AnnAssign) and st.value is not None:
+                st = _ast.Assign(targets=[st.target], value=st.value)
+            if isinstance(st, _ast.Assign):
+                for t in st.targets:
+                    pairs = []
+                    if isinstance(t, _ast.Name):
+                        pairs = [(t, st.value)]
+                    elif isinstance(t, (_ast.Tuple, _ast.List)) and isinstance(st.value, (_ast.Tuple, _ast.List)) and \
+                            len(t.elts) == len(st.value.elts):
+                        pairs = [(a, b) for a, b in zip(t.elts, st.value.elts) if isinstance(a, _ast.Name)]
+                    for a, b in pairs:
+                        if a.id in env:
+                            env[_DEF + a.id] = _Binding(b, pre, env[a.id])
 
     sx = _Exec(tf.node, call_hook=hook)
     results = sx.run()
     ctx.require(bool(results) and not sx.fallthrough, f"{tf.qualname}: a path ends without returning the kernel")
     ctx.require(bool(factors), f"{tf.qualname}: no complex_exponential(...) phase factor recognised")
+
+    # ------------------------------------------------------------ which factors are present on which path
+    def ramps_of(v):
+        if not v.is_monomial():
+            return None
+        (mono, _coef), = v.terms.items()
+        return [a for a, _e in mono if a.startswith("⟦ramp")]
+
+    def test_env(r, i):
+        return sx.test_envs[(id(r.conds[i][0]), tuple((id(t), b) for t, b in r.conds[:i]))]
+
+    pending: list = []
+    skip_state: dict = {}  # id(result) -> set of axes whose omission is NOT justified (absent: not analysed)
+
+    def analyse_skips() -> None:
+        paths = []
+        for r in results:
+            rs = ramps_of(r.value) if r.value is not None else None
+            if rs is None:
+                continue
+            for a in rs:
+                if isinstance(ramp_views[a], AnalysisError):
+                    raise ramp_views[a]
+            pin = None
+            for i, (t, taken) in enumerate(r.conds):
+                n = _pin_ndim(t, test_env(r, i), taken)
+                if n is not None:
+                    pin = n
+            paths.append((r, rs, pin))
+        # the number of axes of the tilt array where no test fixes it: from the selections of the phase factors
+        inferred = set()
+        for r, rs, pin in paths:
+            if pin is None:
+                for a in rs:
+                    for vs in ramp_views[a].values():
+                        for _root, chain in vs:
+                            n = _infer_ndim(chain)
+                            if n is not None:
+                                inferred.add(n)
+        if len(inferred) > 1:
+            raise AnalysisError(f"{tf.qualname}: the phase factors index the tilt array as if it had {sorted(inferred)} axes")
+        default = next(iter(inferred)) if inferred else None
+        if default is not None:
+            ctx.assume(f"the tilt array handed to {TILT_FN} has the {default} axes its phase factors index (no further "
+                       "axes)")
+
+        def ndim_of(pin):
+            n = pin if pin is not None else default
+            if n is None:
+                raise AnalysisError(f"{tf.qualname}: the number of axes of the tilt array is not determinable on a path")
+            return n
+
+        def comp_index(e):
+            c = _int_const(e)
+            if c is None:
+                return None
+            return c + 2 if c < 0 else c  # the component axis holds the pair (x, y)
+
+        # reference: which entries of the tilt array the phase factor of each frequency axis reads
+        ref: dict = {0: set(), 1: set()}
+        for r, rs, pin in paths:
+            n = ndim_of(pin)
+            for a in rs:
+                for ax, vs in ramp_views[a].items():
+                    for _root, chain in vs:
+                        fixed, partial, _free = _select(chain, n)
+                        cs = [(k, comp_index(v)) for k, v in fixed.items()]
+                        if len(cs) != 1 or cs[0][1] is None or partial:
+                            raise AnalysisError(f"{tf.qualname}: the {'xy'[ax]} phase factor does not read one "
+                                                "component of every member of the tilt array")
+                        ref[ax].add(cs[0])
+        for ax in (0, 1):
+            if len(ref[ax]) > 1:
+                raise AnalysisError(f"{tf.qualname}: the {'xy'[ax]} phase factors of different paths read different "
+                                    f"entries of the tilt array {sorted(ref[ax])}")
+        comp_axes = {k for ax in (0, 1) for k, _c in ref[ax]}
+        if len(comp_axes) > 1:
+            raise AnalysisError(f"{tf.qualname}: the x and y phase factors select the component on different axes of "
+                                "the tilt array")
+
+        reported: set = set()
+        justified: dict = {0: 0, 1: 0}
+        full_paths = 0
+        for r, rs, pin in paths:
+            present = {ax for a in rs for ax in ramp_views[a]}
+            missing = sorted({0, 1} - present)
+            if not missing:
+                full_paths += 1
+                skip_state[id(r)] = set()
+                continue
+            n = ndim_of(pin)
+            # ---- the path condition as a propositional formula
+            info: dict = {}  # var -> (kind, selection, remark, test text)
+
+            def formula(e, env):
+                if isinstance(e, _ast.UnaryOp) and isinstance(e.op, _ast.Not):
+                    return "not", formula(e.operand, env)
+                if isinstance(e, _ast.BoolOp):
+                    return ("and" if isinstance(e.op, _ast.And) else "or"), [formula(v, env) for v in e.values]
+                if isinstance(e, _ast.Constant):
+                    return "const", bool(e.value)
+                if isinstance(e, _ast.Call) and isinstance(e.func, _ast.Name) and e.func.id == "bool" and \
+                        len(e.args) == 1 and not e.keywords:
+                    return formula(e.args[0], env)  # truth value made explicit
+                if isinstance(e, _ast.Name):
+                    b = _binding(env, e.id)
+                    if b is not None and _view_of(e, env) is None:
+                        return formula(b.value, b.env)
+                    pv = env.get(e.id)
+                    if isinstance(pv, _Poly) and pv.is_const():
+                        return "const", pv.const_value() != 0
+                fact = _zero_fact(e, env)
+                if fact is not None:
+                    kind, (root, chain), pol, remark = fact
+                    fixed, partial, free = _select(chain, n)
+                    if kind == "scalar":
+                        if any(a != "new" for a in free):
+                            raise AnalysisError(f"{tf.qualname}: `{norm_text(e)[:60]}` compares more than one entry of "
+                                                "the tilt array in a truth context")
+                        kind = "allz"
+                    sel = (tuple(sorted((k, norm_text(v)) for k, v in fixed.items())), tuple(sorted(partial)))
+                    var = ("weak" if kind == "weak" else "allz", remark, root, sel)
+                    info.setdefault(var, (kind, (fixed, partial), remark, norm_text(e)[:60]))
+                    f = ("var", var)
+                    return f if pol else ("not", f)
+                if _mentions_tilt(e, env):
+                    raise AnalysisError(f"{tf.qualname}: the test `{norm_text(e)[:60]}` on the tilt values, which decides "
+                                        "whether a phase factor is applied, is not of a recognised form")
+                return "var", ("opaque", sx.normalizer(env).norm(e).key())
+
+            fs = [(formula(t, test_env(r, i)), taken) for i, (t, taken) in enumerate(r.conds)]
+            vars_: list = []
+            for f, _taken in fs:
+                _formula_vars(f, vars_)
+            if len(vars_) > 12:
+                raise AnalysisError(f"{tf.qualname}: too many independent tests on one path")
+            models = []
+            for bits in itertools.product((True, False), repeat=len(vars_)):
+                m = dict(zip(vars_, bits))
+                if all(_eval_formula(f, m) == taken for f, taken in fs):
+                    models.append(m)
+            if not models:
+                skip_state[id(r)] = "infeasible"  # contradictory tests: no input takes this path
+                continue
+            bad = set()
+            for ax in missing:
+                xy = "xy"[ax]
+                construct = f"{tf.qualname}:{xy} phase factor omitted"
+                if not ref[ax]:
+                    bad.add(ax)
+                    if ax not in reported:
+                        reported.add(ax)
+                        ctx.violation("R-TILTPRODUCT", construct, tf.loc(r.stmt),
+                                      f"no phase factor over the {xy} frequencies multiplies the propagator on the path "
+                                      f"to this return, and no path builds one: a tilt along {xy} never shifts the wave",
+                                      key_detail=f"skip-{xy}")
+                    continue
+                (caxis, c), = ref[ax]
+
+                def relation(sel):
+                    fixed, partial = sel
+                    others = {k: v for k, v in fixed.items() if k != caxis}
+                    if others:
+                        return "member", "only member " + ", ".join(f"`{norm_text(v)}`" for v in others.values()) + \
+                            " of the batch axis (a constant index where the whole axis is needed)"
+                    if partial - {caxis}:
+                        return "member", "only a slice of the batch axis"
+                    if caxis in partial:
+                        raise AnalysisError(f"{tf.qualname}: a test reads a slice of the component axis of the tilt array")
+                    if caxis in fixed:
+                        cc = comp_index(fixed[caxis])
+                        if cc is None:
+                            raise AnalysisError(f"{tf.qualname}: a test reads a non-constant component of the tilt array")
+                        if cc != c:
+                            return "other", f"component {cc}, the one the {'xy'[1 - ax]} factor uses, not component {c}"
+                    return "covers", ""
+
+                def established(m) -> bool:
+                    return any(k[0] == "allz" and m[k] and relation(info[k][1])[0] == "covers" for k in info)
+
+                ok = all(established(m) for m in models)
+                if ok:
+                    justified[ax] += 1
+                    continue
+                bad.add(ax)
+                if ax in reported:
+                    continue
+                reported.add(ax)
+                why = []
+                for k, (kind, sel, remark, text) in info.items():
+                    rel, what = relation(sel)
+                    if kind == "weak":
+                        why.append(f"`{text}` {remark}")
+                    elif rel != "covers":
+                        why.append(f"`{text}` tests {what}")
+                    else:
+                        why.append(f"`{text}` covers the component, but the factor is left out on the arm where it does "
+                                   "NOT say that every entry is zero (wrong polarity)")
+                if not why:
+                    why.append("no test on the path reads the tilt values")
+                ctx.violation("R-TILTPRODUCT", construct, tf.loc(r.stmt),
+                              f"on the path [{', '.join(('' if b else 'not ') + '`' + norm_text(t)[:40] + '`' for t, b in r.conds)}] "
+                              f"the phase factor over the {xy} frequencies (tilt component {c}) does not multiply the "
+                              f"propagator, and the path condition does not imply that component {c} of EVERY member of "
+                              f"the tilt batch is zero: {'; '.join(why)}.  Members with a non-zero {xy} tilt are "
+                              f"propagated without their shift dz·tan(t) along {xy}", key_detail=f"skip-{xy}")
+            skip_state[id(r)] = bad
+        for ax in (0, 1):
+            if justified[ax]:
+                ctx.ok("R-TILTPRODUCT", f"{tf.qualname}:{'xy'[ax]} phase factor omitted", tf.where,
+                       f"{justified[ax]} path(s) without the {'xy'[ax]} factor: the path condition implies that this "
+                       "component of every member of the batch is zero (the factor would be 1)")
+        if full_paths:
+            ctx.ok("R-TILTPRODUCT", f"{tf.qualname}:factors per path", tf.where,
+                   f"{full_paths} path(s) carry a phase factor for both frequency axes; components read: "
+                   f"x -> {sorted(ref[0])}, y -> {sorted(ref[1])} (axis from the end, index)")
+
+    try:
+        analyse_skips()
+    except AnalysisError as e:
+        pending.append(e)
+
     seen = set()
     for r in results:
         ctx.require(r.value is not None, f"{tf.qualname}: return without value")
@@ -566,15 +1163,18 @@ def _tilt_product_rule(ctx) -> None:
             if exps.get("array") != 1:
                 problems.append(f"the untilted propagator enters with exponent {exps.get('array', 0)} instead of 1 "
                                 "(dividing by it inverts the propagation)")
-            if not ramps:
+            states = [skip_state.get(id(q), "not analysed") for q in results
+                      if q.value is not None and q.value.key() == key]
+            if not ramps and not all(st == "infeasible" or st == set() for st in states):
                 problems.append("no tilt phase factor multiplies the propagator")
             bad = sorted(a for a, e in ramps.items() if e != 1)
             if bad:
                 problems.append(f"{len(bad)} tilt phase factor(s) enter with an exponent other than +1 (a divided "
                                 "unit-modulus ramp is its conjugate: the shift along that axis is reversed)")
         ctx.check(not problems, "R-TILTPRODUCT", f"{tf.qualname}:returned kernel", tf.loc(r.stmt),
-                  "kernel = propagator × every tilt phase factor, each once",
+                  "kernel = propagator × every tilt phase factor, each once (or justified omission)",
                   "; ".join(problems), key_detail="product")
+    return pending[0] if pending else None
 
 
 def _nonzero_truth(t, mentions) -> "bool | None":
@@ -665,13 +1265,34 @@ def run(ctx) -> None:  # noqa: F811
              "kernel is the incoming propagator times each tilt phase factor e^(i·ramp), every factor with exponent "
              "+1 (batch selection / reshaping commute with the product).  Tilted propagation = untilted propagation "
              "followed by the shift only if the ramps *multiply* the propagator: a divided ramp is its conjugate "
-             "(shift reversed along that axis) and a divided propagator propagates backwards")
+             "(shift reversed along that axis) and a divided propagator propagates backwards.  EVERY frequency axis "
+             "needs its factor on every path: a path on which the factor of one axis is missing is accepted only if "
+             "the path condition (tests followed through the local names bound on that path, decided by enumerating "
+             "the models of the condition over the atoms 'every entry of <selection of the tilt array> is zero') "
+             "implies that the tilt component this factor reads is zero for every member of the batch (then the "
+             "factor is 1): a reduction over the whole component such as `not any(t[:, c])`, `all(t[:, c] == 0)`, "
+             "`count_nonzero(t[:, c]) == 0`, or over the whole array.  Which axis of the tilt array is the batch "
+             "axis and which index is the component is read from the selection the factors themselves make "
+             "(`t[:, c, None, None]`: the constant index marks the component axis, counted from the end; the reshape "
+             "of a single pair `t[None]` under `t.shape == (2,)` makes a batch of one).  A test on one member (constant "
+             "index or slice along the batch axis), on the other component, with `any` where `all` is needed or on "
+             "the wrong arm does not establish it: the members with a non-zero component lose their shift dz·tan(t) "
+             "=> VIOLATION naming the factor and the test; a test on the tilt values of another form is an "
+             "ANALYSIS-ERROR")
     ctx.rule("R-BASETILT-NONZERO", "in FresnelPropagator._calculate_array the arm of the base-tilt test that applies the "
              "tilt kernel is the arm taken when waves.base_tilt differs from zero (test evaluated for a non-zero "
              "tilt: `!= 0` true, `== 0` false, `not`, `any(...)`): otherwise every non-zero scalar tilt is dropped")
-    _tilt_product_rule(ctx)
+    pending = _tilt_product_rule(ctx)
     _base_tilt_polarity_rule(ctx)
-    _inner_run_c39c(ctx)
+    if pending is None:
+        _inner_run_c39c(ctx)
+    else:
+        from ..rules import deferred
+
+        def _raise():
+            raise pending
+
+        deferred.run(ctx, _raise, _inner_run_c39c)
 
 
 # ---- added after the seeded change C39-r4seed2: the memoised kernel is the kernel of *these* waves
